@@ -32,7 +32,7 @@ def _names(s):
     return names
 SCALARS = [0, 1, 2, 3, 5, 13, 's', 't', None, -1, -2]      # hash(-1) == hash(-2) in CPython: distinct arguments, equal hashes
 CONTAINERS = [[1, 2], [], {'k': [1]}, [[3]], {'p': 1, 'q': 2}, {'odict': [['p', 1], ['q', 2]]}, {'odict': [['q', 3], ['p', 1]]}, {'pdict': [['k', 5]]},
-              {'pdict': [['k', 6]]}, {'odict': [['k', [1]]]}]      # mappings of other classes than dict: an argument like any other
+              {'pdict': [['k', 6]]}, {'odict': [['k', [1]]]}, {'range': 3}, {'range': 0}]      # mappings of other classes than dict: an argument like any other
 TRY_VALUES = ['none', 'nan', 'zero', 'false', 'true', 'list', 'dict']
 POOL = 8
 
@@ -49,6 +49,8 @@ class _Ref:
 def _enc(v):
     if isinstance(v, _Ref):
         return {'ref': v.k}
+    if isinstance(v, dict) and set(v) == {'range'}:
+        return dict(v)
     if isinstance(v, dict) and set(v) in ({'odict'}, {'pdict'}):
         (kind, items), = v.items()
         return {kind: [[k, enc(x)] for k, x in items]}
@@ -58,6 +60,8 @@ def _enc(v):
 def _dec(v, pool):
     if isinstance(v, dict) and 'ref' in v:
         return pool[v['ref'] % len(pool)]
+    if isinstance(v, dict) and set(v) == {'range'}:
+        return range(v['range'])            # a sequence that is neither list nor tuple: an argument like any other
     if isinstance(v, dict) and set(v) == {'odict'}:
         import collections
         return collections.OrderedDict((k, dec(x)) for k, x in v['odict'])
@@ -931,6 +935,25 @@ def execute(trace, ctx=None):
                         raise Violation('argspec', 'getargspec(object%s).%s = %r, f has %r' % ([l['t'] for l in o['chain']], fld, gv, getattr(want, fld)), k)
                 res.probe('argspec-checked')
                 f0_ = funcs[o['fid']][0]
+                if k % 3 == 0:
+                    # f behind an ordinary functools.wraps decorator: what can be CALLED is (*args, **kwargs), and that is what
+                    # inspect reports for it (it does not look through __wrapped__); the library must agree with inspect
+                    import functools
+
+                    @functools.wraps(f0_)
+                    def passthrough(*args, **kwargs):
+                        return ('W', args, tuple(sorted(kwargs)))
+                    w_want = inspect.getfullargspec(passthrough)
+                    try:
+                        w_got = getargspec(passthrough)
+                        w_ca = getcallargs(passthrough, 1, 2, 3, zz=4)
+                    except Exception as e:
+                        raise Violation('argspec', 'getargspec / getcallargs of a functools.wraps-decorated function raised %s: %s' % (type(e).__name__, e), k)
+                    if (w_got.args, w_got.varargs, w_got.varkw) != (w_want.args, w_want.varargs, w_want.varkw):
+                        raise Violation('argspec', 'a functools.wraps-decorated function is reported as %r, inspect says %r' % (w_got, w_want), k)
+                    if not _deep_same(_norm_callargs(w_ca), _norm_callargs(inspect.getcallargs(passthrough, 1, 2, 3, zz=4))):
+                        raise Violation('getcallargs', 'getcallargs of a functools.wraps-decorated function = %r, inspect says %r' % (w_ca, inspect.getcallargs(passthrough, 1, 2, 3, zz=4)), k)
+                    res.probe('functools-wraps-decorated-function')
                 if f0_.__defaults__ and k % 2 == 0:
                     # a second function made from the SAME code with other defaults (closures of one factory, lambdas made in a
                     # loop are like that); asked about after the first, it must be reported with its own defaults
